@@ -105,7 +105,14 @@ CLAIMS.update({
    tech="TLA+ model checked by TLC; TLC-enumerated histories replayed into a real Session; recorded states judged by TLC", ref="DESIGN.md section 7 C16"),
 })
 
-NA = {"C05": "check under construction by this round (structure-aware malformation and protocol-position generators exist in part); not yet claimed"}
+CLAIMS.update({
+ "C05": dict(cat="exploration",
+   text="The specification contributes the input families and the oracle relation (allowed outcomes of any network input are value, error or closed connection - never a crash; allocation <= 64*len + 8 MiB for an uncompressed, fully received body): Gen_Malformed.tla derives from the WireResp.tla encoder every truncation of every well-formed response frame, every length/count/code/flag field replaced by boundary values, kind confusion and nested type descriptors; Gen_MalformedVal.tla the (type, bytes) pairs for Unmarshal; Gen_TypeStrings.tla the schema-table type grammars with every truncation and bracket imbalance; Gen_Positions.tla the conversation state machine composed with 'any well-formed answer at any position' (handshake, auth, REGISTER, queries, heartbeats, events, system table rows). Every input is executed on the real code in re-executed child processes (framer, Iter consumers, Unmarshal, handleEvent, type parser, live Sessions with their background goroutines); a dying batch is bisected to the single input; the observations (outcome, stack site, allocation) are judged by TLC (Trace_Malformed.tla).",
+   note="The space of byte strings is infinite: what is decided is the enumerated malformation family, seeded random damage and all protocol positions (exploration, not a proof); compressed bodies are C18's domain; stack exhaustion by multi-MB-deep type descriptors is not covered; allocation driven by a [short] count (<= 6 MB) stays below the bound on purpose.",
+   tech="TLA+ generators (structure-aware malformation, protocol positions) replayed into the real code in child processes; observations judged by TLC against the allowed-outcome relation", ref="DESIGN.md section 7 C05"),
+})
+
+NA = {}
 DEFAULT_NA = "machinery under construction in this round; not yet claimed"
 
 
